@@ -1035,6 +1035,10 @@ func ruleC08(w *World) {
 	if d == nil {
 		return
 	}
+	// R17: verdicts are written into the protocol objects, never into copies of them (= C07.R15): a dealer disqualified
+	// in a copy stays qualified for the key collection
+	w.floor("C08.R17", 10)
+	w.ruleStateStoresLand("C08.R17", d)
 	// R16: every report of a peer is justified by something an honest sender never does
 	w.floor("C08.R16", 8)
 	w.ruleFlagCauses("C08.R16", d)
@@ -1551,6 +1555,9 @@ func ruleC07(w *World) {
 	// R13: shape of the dealer (share of participant j is P(j+1), goes to slot / recipient j, all participants covered)
 	w.floor("C07.R13", 8)
 	w.ruleDealingShape("C07.R13", d.m.idxOwn)
+	// R17: a complaint that is decided is filed
+	w.floor("C07.R17", 1)
+	w.ruleOwnComplaintRecorded("C07.R17", d)
 	// R16: one reader for every scalar taken from a message, in every arrival order
 	w.floor("C07.R16", 4)
 	w.ruleScalarIntake("C07.R16", d)
@@ -1915,7 +1922,14 @@ func ruleC07(w *World) {
 			// incremented by exactly one, somewhere in End
 			inc := false
 			instrsFlat(end, func(ins ssa.Instruction) {
-				if b, ok := ins.(*ssa.BinOp); ok && b.Op == token.ADD && render(b.X) == c1 && render(b.Y) == "1" {
+				// the same source variable (the φ of another block of the loop nest renders with another block index)
+				base := func(x string) string {
+					if i := strings.LastIndex(x, "@"); i >= 0 {
+						return x[:i]
+					}
+					return x
+				}
+				if b, ok := ins.(*ssa.BinOp); ok && b.Op == token.ADD && base(render(b.X)) == base(c1) && strings.HasPrefix(render(b.X), "φ") && render(b.Y) == "1" {
 					inc = true
 				}
 			})
@@ -2630,5 +2644,66 @@ func (w *World) ruleErrorClassKept(rule string, d *dkgAnchors) {
 	}
 	if n == 0 {
 		w.undecided(rule, "anchor:errorf-sites", token.NoPos, "no fmt.Errorf that hands an error on was found in the DKG state types")
+	}
+}
+
+// ruleOwnComplaintRecorded (C07.R17): when a participant decides to complain, its own complaint is on record when the
+// deciding function returns: every return of the function that files the participant's own complaint (the method that
+// stores a record under the participant's own index and broadcasts) is dominated by that store, or by the fact that a
+// record with `received == true` is already there. Mere presence of a record is not evidence of a complaint: the answer
+// intake creates records too (an answer that overtook — or was sent without — a complaint), and a complaint skipped
+// because of such a record is never broadcast: the participant keeps a share the others believe corrected.
+func (w *World) ruleOwnComplaintRecorded(rule string, d *dkgAnchors) {
+	n := 0
+	for _, fn := range w.srcFuncs(rootPath) {
+		if fn.Signature.Recv() == nil || isTestFile(w, fn.Pos()) || !types.Identical(deref(fn.Signature.Recv().Type()), d.qual) {
+			continue
+		}
+		var updates []*ssa.MapUpdate
+		instrsFlat(fn, func(ins ssa.Instruction) {
+			mu, ok := ins.(*ssa.MapUpdate)
+			if !ok {
+				return
+			}
+			if f := rootFieldOfLoad(mu.Map); f == nil || f != d.m.cmap {
+				return
+			}
+			// key = the participant's own index
+			k := stripConv(mu.Key)
+			if ld, ok := k.(*ssa.UnOp); ok && ld.Op == token.MUL {
+				if f := addrField(ld.X); f != nil && f == d.m.idxOwn {
+					updates = append(updates, mu)
+				}
+			}
+		})
+		if len(updates) == 0 {
+			continue
+		}
+		recv := P(fn, 0)
+		for _, r := range returns(fn) {
+			if r.Parent() != fn {
+				continue
+			}
+			n++
+			okk := false
+			for _, mu := range updates {
+				if instrDominates(mu, r) {
+					okk = true
+				}
+			}
+			var fs []string
+			if !okk {
+				for _, f := range w.factsAt(r) {
+					fs = append(fs, f.Expr)
+					if strings.HasPrefix(f.Expr, recv+".") && strings.Contains(f.Expr, "[") && strings.HasSuffix(f.Expr, ".received == true") {
+						okk = true
+					}
+				}
+			}
+			w.check(okk, rule, fmt.Sprintf("%s/return#%d", fnKey(fn), n), r.Pos(), "own complaint on record at every return", fmt.Sprintf("%s can return without having filed the participant's own complaint and without a complaint being on record (conditions on this path: %v): a record that only holds an early answer suppresses the complaint, which is then never broadcast", fn.Name(), fs))
+		}
+	}
+	if n == 0 {
+		w.undecided(rule, "anchor:own-complaint", token.NoPos, "no function that files the participant's own complaint was found")
 	}
 }
